@@ -171,11 +171,13 @@ def observe_case(topo, root, variant, depths, events, meta):
             ls = [{"lvl": 0, "cls": root[1], "right": False, "conv": False}]
         deepest = max((x["lvl"] for x in ls), default=-1)
         want_deepest = max((x["lvl"] for x in levels(topo, root, want, env)), default=-1)
-        for x in ls:
-            # one flat event per level: right class and every scalar of the level converted
-            lev(d, f"level{x['lvl']}", {"k": "ok", "r": {"k": "none", "cls": "NoneType"}}, converted=bool(x["right"] and x["conv"]))
-        if deepest != want_deepest or len(ls) != len(levels(topo, root, want, env)):
-            lev(d, "reach", {"k": "ok", "r": {"k": "none", "cls": "NoneType"}}, converted=False)
+        # one flat event per value: a flag per level (right class and every scalar of the level converted),
+        # and whether the walk reached the depth that was generated
+        flags = [bool(x["right"] and x["conv"]) for x in ls]
+        reach = deepest == want_deepest and len(ls) == len(levels(topo, root, want, env))
+        events.append({"ev": "levels", "flags": flags or [True], "reach": reach})
+        firstraw = next((x["lvl"] for x in ls if not (x["right"] and x["conv"])), None)
+        meta.append(dict(info, depth=d, what="level" if firstraw is not None else ("reach" if not reach else "levels"), first_raw_level=firstraw))
         # round trip at the root: marshal(unmarshal(raw)) is the converted wire value; codec agrees
         try:
             w = with_deadline(10, M, res)
@@ -211,13 +213,15 @@ def _run(ctx: Ctx, box):
                           workers=1, timeout=7200), "Graph emit 3 classes")
     cases += [p for p in e3.printed if isinstance(p, dict) and "topo" in p and cyclic_from(p["topo"], p["root"])]
     ncyc = len(cases)
-    if quick:
-        cases = rng.sample(cases, min(len(cases), 450))
-    depths = [0, 1, 2, 3, 12] if quick else [0, 1, 2, 3, 12, 50, 150]
+    cases = rng.sample(cases, min(len(cases), 450 if quick else 20000))
+    depths = [0, 1, 2, 3, 12]
+    ndeep = 0 if quick else 1500          # every k-th case is also unrolled to depth 50 and 150
     events, meta = [], []
     clear_typelib_caches()
     for k, c in enumerate(cases):
-        observe_case(c["topo"], c["root"], k % 5, depths, events, meta)
+        deep = ndeep and k % max(1, len(cases) // ndeep) == 0
+        observe_case(c["topo"], c["root"], k % 5, depths + ([50, 150] if deep else []), events, meta)
+    depths = depths if quick else depths + [50, 150]
     slim = events
     tres, rejects = tlc.validate_trace("Member_Trace", "Member_Trace.cfg", slim, timeout=7200)
     viol = []
@@ -237,11 +241,11 @@ def _run(ctx: Ctx, box):
                   "rule": "cycle topologies emitted by TLC from spec/Graph.tla (2 classes x <=2 fields over Optional/list/dict/tuple edges, "
                           "3 classes x 1 field incl. direct edges; every class and every container of a class as root), materialised in 4 "
                           "class flavours over 1-2 modules; for each depth the raw wire value is unmarshalled and walked level by level "
-                          "(one flat event per level: right class, scalars converted), marshalled back and passed through the codec; "
+                          "(one flat event per value with a flag per level: right class, scalars converted), marshalled back and passed through the codec; "
                           "non-trivial = depth >= 1, distinct by (topology, root, depth)",
                   "samples": [dict(meta[len(meta) // 2], event=events[len(events) // 2])]},
         violations=viol,
-        assumptions=["depth counts class levels; each level is logged flat so that TLC never sees 150-deep terms",
+        assumptions=["depth counts class levels; the levels are logged as a flat sequence of flags so that TLC never sees 150-deep terms",
                      "per-level class/scalar checks and the root round-trip comparison are computed by the harness; TLC asserts them",
                      "the Python frame limit is raised for the depth >= 50 runs"])
 
